@@ -877,4 +877,44 @@ theorem write_valid_full (K : Inflate) (enc : Bytes → Bytes) (s : Source) (til
     ValidPMTiles K file (fmtOfType (typeCode s.fmt)) s.comp (fun p => nonEmpty (tiles p)) :=
   write_valid K enc s tiles gs hmeta hcz hgeo hcount file hw hsize (dirProvider K enc hK hnil)
 
+/-! ### the root-directory budget -/
+
+/-- whatever `as_directory(16384 - 127, …)` returns fits between the header and the metadata -/
+theorem root_within_budget (enc : Bytes → Bytes) (es : List Entry) (root leaves : Bytes)
+    (h : asDirectory enc (16384 - 127) es = .ok (root, leaves)) : 127 + root.length ≤ 16384 := by
+  have := (asDirectory_cases enc _ es root leaves h).1
+  omega
+
+/-- **the obligation behind the budget 16257 = 16384 − 127**: a root directory of at most 16257 bytes written
+    at offset 127 does not reach offset 16384 — after all positional writes the metadata, the root
+    directory, the tile data and the leaf directories are all intact -/
+theorem root_does_not_reach_metadata (hdr root mta data leaves : Bytes) (hh : hdr.length = 127)
+    (hr : root.length ≤ 16384 - 127) :
+    let file := writeAt (writeAt (writeAt (writeAt (writeAt [] 16384 mta) (16384 + mta.length) data) 127 root)
+      (16384 + mta.length + data.length) leaves) 0 hdr
+    slice file ⟨127, root.length⟩ = root ∧ slice file ⟨16384, mta.length⟩ = mta ∧
+    slice file ⟨16384 + mta.length, data.length⟩ = data ∧
+    slice file ⟨16384 + mta.length + data.length, leaves.length⟩ = leaves := by
+  intro file
+  have hfile : file = hdr ++ (root ++ (List.replicate (16384 - 127 - root.length) 0 ++ (mta ++ (data ++ leaves)))) :=
+    layout hdr root mta data leaves hh hr
+  refine ⟨?_, ?_, ?_, ?_⟩
+  · rw [hfile, ← hh]; exact slice_mid _ _ _
+  · have e : file = (hdr ++ root ++ List.replicate (16384 - 127 - root.length) 0) ++ (mta ++ (data ++ leaves)) := by
+      rw [hfile]; simp only [List.append_assoc]
+    rw [e]
+    exact slice_at _ _ _ _ (by simp only [List.length_append, List.length_replicate, hh]; omega)
+  · have e : file = (hdr ++ root ++ List.replicate (16384 - 127 - root.length) 0 ++ mta) ++ (data ++ leaves) := by
+      rw [hfile]; simp only [List.append_assoc]
+    rw [e]
+    exact slice_at _ _ _ _ (by simp only [List.length_append, List.length_replicate, hh]; omega)
+  · have e : file = (hdr ++ root ++ List.replicate (16384 - 127 - root.length) 0 ++ mta ++ data) ++ (leaves ++ []) := by
+      rw [hfile]; simp only [List.append_assoc, List.append_nil]
+    rw [e]
+    exact slice_at _ _ _ _ (by simp only [List.length_append, List.length_replicate, hh]; omega)
+
+/-- the budget is tight (small-number instance of the same positional writes: header 2 bytes, metadata at
+    5, i.e. a budget of 3): a 4-byte root overwrites the first metadata byte -/
+example : (writeAt (writeAt (writeAt [] 5 [9, 9]) 7 [7]) 2 [1, 1, 1, 1])[5]? = some 1 := by decide
+
 end VtProofs.PMTilesWrite
